@@ -12,7 +12,7 @@ package standard
 //@   guarded_by signedValidatorRegistrationsMu: signedValidatorRegistrations
 //@   guarded_by controlledValidatorsMu: controlledValidators (replaced)
 //@   // established by New (parseAndCheckParameters rejects nil for these; the cache map is made there)
-//@   valid self.chainTime != nil && self.accountsProvider != nil && self.validatingAccountsProvider != nil && self.builderBidProvider != nil && self.builderBidsCache != nil
+//@   valid self.chainTime != nil && self.accountsProvider != nil && self.validatingAccountsProvider != nil && self.builderBidProvider != nil && self.builderBidsCache != nil && self.validatorRegistrationSigner != nil
 //@
 //@ spec func fetchedCfg() blockrelay.ExecutionConfigurator
 //@ spec func fetchedErr() error
@@ -45,10 +45,6 @@ package standard
 //@   requires s != nil && s.accountsProvider != nil && s.builderBidProvider != nil && s.builderBidsCache != nil && nolocks()
 //@   assumes call BuilderBid#1 (res, err): err == nil ==> res != nil
 //@
-//@ func (*Service).generateValidatorRegistrationsForAccount
-//@   // the accounts come from the accounts provider, which hands out no nil accounts
-//@   requires !isnil(account)
-//@
 //@ func (*Service).submitValidatorRegistrationsForAccounts
 //@   requires forall k phase0.ValidatorIndex :: in(accounts, k) ==> !isnil(accounts[k])
 //@
@@ -57,3 +53,73 @@ package standard
 //@
 //@ func (*Service).submitValidatorRegistrations
 //@   assumes call ValidatingAccountsForEpoch#1 (accts, err): err == nil ==> forall k phase0.ValidatorIndex :: in(accts, k) ==> !isnil(accts[k])
+//@
+//@ // ---- C11: what a relay is told is what the configuration resolved for that validator and relay ----
+//@ // the root of a registration's content (fee recipient, gas limit, public key; no timestamp): assumed injective
+//@ spec func regRoot(fee bellatrix.ExecutionAddress, gas uint64, pubkey phase0.BLSPubKey) phase0.Root
+//@ axiom forall f1 bellatrix.ExecutionAddress, g1 uint64, p1 phase0.BLSPubKey, f2 bellatrix.ExecutionAddress, g2 uint64, p2 phase0.BLSPubKey {regRoot(f1, g1, p1), regRoot(f2, g2, p2)} :: regRoot(f1, g1, p1) == regRoot(f2, g2, p2) ==> f1 == f2 && g1 == g2 && p1 == p2
+//@ // every cached signed registration is stored under the root of its own content
+//@ spec func regCacheOK(s *Service) bool = s.signedValidatorRegistrations != nil && s.latestValidatorRegistrations != nil && (forall r phase0.Root {in(s.signedValidatorRegistrations, r)} :: in(s.signedValidatorRegistrations, r) ==> s.signedValidatorRegistrations[r] != nil && s.signedValidatorRegistrations[r].Message != nil && r == regRoot(s.signedValidatorRegistrations[r].Message.FeeRecipient, s.signedValidatorRegistrations[r].Message.GasLimit, s.signedValidatorRegistrations[r].Message.Pubkey))
+//@
+//@ // hashing a registration reads it only; without a timestamp its root is the root of its content
+//@ extern (*github.com/attestantio/go-builder-client/api/v1.ValidatorRegistration).HashTreeRoot
+//@   ensures iszero(v.Timestamp) ==> result0 == regRoot(v.FeeRecipient, v.GasLimit, v.Pubkey)
+//@   modifies nothing
+//@
+//@ func (*Service).generateValidatorRegistrationForRelay
+//@   requires relayConfig != nil && regCacheOK(s) && s.validatorRegistrationSigner != nil && nolocks()
+//@   // a new registration is signed by that validator's account over exactly the resolved values
+//@   at call SignValidatorRegistration#1: assert arg1 == account
+//@   at call SignValidatorRegistration#1: assert arg2 != nil && arg2.V1 == registration
+//@   at call SignValidatorRegistration#1: assert registration.FeeRecipient == relayConfig.FeeRecipient && registration.GasLimit == relayConfig.GasLimit
+//@   at call SignValidatorRegistration#1: assert registration.Pubkey == pubkey
+//@   // whether signed now or reused: the registration names this validator with the fee recipient and gas limit resolved
+//@   // for this relay (a cached one is reused only while its content is exactly that)
+//@   ensures result2 == nil ==> result0 != nil && result0.V1 != nil && result0.V1.Message != nil && result0.V1.Message.FeeRecipient == relayConfig.FeeRecipient && result0.V1.Message.GasLimit == relayConfig.GasLimit && result0.V1.Message.Pubkey == pubkey
+//@   // the beacon nodes are told the same
+//@   ensures result2 == nil ==> result1 != nil && result1.V1 != nil && result1.V1.Message != nil && result1.V1.Message.FeeRecipient == relayConfig.FeeRecipient && result1.V1.Message.GasLimit == relayConfig.GasLimit && result1.V1.Message.Pubkey == pubkey && result1.V1.Signature == result0.V1.Signature
+//@   ensures regCacheOK(s)
+//@   modifies contents(s.signedValidatorRegistrations), contents(s.latestValidatorRegistrations)
+//@
+//@ func (*Service).generateValidatorRegistrationsForAccount
+//@   // the accounts come from the accounts provider, which hands out no nil accounts; a configuration is in force
+//@   requires !isnil(account) && s.executionConfig != nil
+//@   requires regCacheOK(s) && controlledValidators != nil && relayRegistrations != nil && nolocks()
+//@   assumes call ProposerConfig#1 (cfg, err): err == nil ==> cfg != nil && (forall k int :: 0 <= k && k < len(cfg.Relays) ==> cfg.Relays[k] != nil)
+//@   // every relay of the resolved settings gets a registration generated from its own settings, for this validator
+//@   at call generateValidatorRegistrationForRelay#1: assert arg2 == account && arg3 == pubkeyOf(account) && arg4 == proposerConfig.Relays[index] && arg4 == relay
+//@   loop 1
+//@     invariant -1 <= rangeindex && rangeindex < len(proposerConfig.Relays) && regCacheOK(s) && relayRegistrations != nil
+//@     invariant forall k int :: 0 <= k && k < len(proposerConfig.Relays) ==> proposerConfig.Relays[k] != nil
+//@   // a relay whose registration cannot be generated does not stop the others
+//@   ensures result1 == nil ==> !inloop(1)
+//@   ensures regCacheOK(s)
+//@
+//@ func (*Service).submitValidatorRegistrationsForAccounts
+//@   requires (forall k phase0.ValidatorIndex :: in(accounts, k) ==> !isnil(accounts[k])) && regCacheOK(s) && nolocks()
+//@   loop 1
+//@     invariant regCacheOK(s) && relayRegistrations != nil && controlledValidators != nil && nolocks() && s.executionConfig != nil
+//@   // a validator whose settings cannot be resolved does not stop the registrations of the others: with a
+//@   // configuration in force every round gets to the submission
+//@   ensures s.executionConfig != nil ==> result == nil && calls(submitRelayRegistrations) == 1
+//@
+//@ func (*Service).submitRelayRegistrations
+//@   requires nolocks()
+//@   // one submission per relay address, with that relay's whole list
+//@   at call go: assert in(relayRegistrations, arg1) && arg2 == relayRegistrations[arg1]
+//@   ghost cnt (Array Int Int) = empty
+//@   at call go: ghost cnt[arg1] = cnt[arg1] + 1
+//@   loop 1
+//@     invariant forall b string {cnt[b]} :: visited(b) ==> cnt[b] == 1
+//@     invariant forall b string {cnt[b]} :: !visited(b) ==> cnt[b] == 0
+//@     invariant forall b string :: visited(b) ==> in(relayRegistrations, b)
+//@   ensures forall b string {cnt[b]} :: in(relayRegistrations, b) ==> cnt[b] == 1
+//@   ensures forall b string {cnt[b]} :: !in(relayRegistrations, b) ==> cnt[b] == 0
+//@
+//@ func (*Service).submitConsensusRegistrations
+//@   requires nolocks()
+//@   // every secondary beacon node is handed the whole list
+//@   at call go: assert arg1 == s.secondaryValidatorRegistrationsSubmitters[rangeindex] && arg2 == consensusRegistrations
+//@   loop 1
+//@     invariant -1 <= rangeindex && rangeindex < len(s.secondaryValidatorRegistrationsSubmitters) && calls(go) == rangeindex + 1
+//@   ensures len(consensusRegistrations) > 0 ==> calls(go) == len(s.secondaryValidatorRegistrationsSubmitters)
